@@ -383,3 +383,24 @@ ADDENDA9 = {
 }
 for _k, _v in ADDENDA9.items():
     CLAIMS[_k]["text"] = CLAIMS[_k]["text"].rstrip() + " " + _v
+
+ADDENDA10 = {
+    "C01": "Round 11: the identifier of a hashed value is injective (identity, never a hash).",
+    "C02": "Round 11: shares CARRY-1; no memoised method of the evaluation closure looks at a user object.",
+    "C03": "Round 11: the reset hooks are called when an evaluation starts only; no memo keyed by values.",
+    "C04": "Round 11: writer and reader take the nearest alternatively mapped ancestor; what its mapping stores is read through the mapping.",
+    "C06": "Round 11: nothing in the generator remembers objects by id().",
+    "C07": "Round 11: a path join relates the FROM element the path has reached; the anchor of an attribute equality is the selected variable itself.",
+    "C08": "Round 11: shares EP-OPERAND; the memory of produced conclusions is keyed by every bound expression below the conclusion.",
+    "C09": "Round 11: the constraint tables evaluate the truth of a bound.",
+    "C11": "Round 11: shares DOMAIN-GIVEN.",
+    "C13": "Round 11: shares STREAM-LAZY.",
+    "C14": "Round 11: a descriptor remembers nothing about instances by id().",
+    "C15": "Round 11: the role taker is found by the kind of the edge.",
+    "C16": "Round 11: a container under construction is filled before it is bound; the in-place operators are bulk adders; assigned elements are recorded.",
+    "C17": "Round 11: node indices are never tested for truth.",
+    "C19": "Round 11: constructing a documented error only formats its payload.",
+    "C20": "Round 11: a wrapper compares instances only when both are alive.",
+}
+for _k, _v in ADDENDA10.items():
+    CLAIMS[_k]["text"] = CLAIMS[_k]["text"].rstrip() + " " + _v
